@@ -504,6 +504,58 @@ def _r06_5_loop_prefill(ctx, prog, crate, pe, bc, sl, rs):
                       "pointer offset is %s" % sorted(z.label() for z in x.prov.op_src(c.args[1])), c.line())
 
 
+def _r06_5_task_closure(ctx, prog, pe):
+    cls = [x for x in prog.children(pe) if x.kind == "Closure"]
+    task = [x for x in cls if any(c.callee in ("std::ptr::mut_ptr::write", "std::ptr::write") for c in x.live_calls())]
+    if ctx.check(len(task) == 1, "R06.5", ["par_extend", "task-closure"], "task closures: %d" % len(task), pe.where(0)):
+        x = task[0]
+        ctx.saw(x)
+        w2 = [c for c in x.live_calls() if c.callee in ("std::ptr::mut_ptr::write", "std::ptr::write")][0]
+        dst = x.prov.op_src(w2.args[0])
+        idx = "param:" + x.param_name(2)
+        ctx.check(any(z.kind == "call" and z.a.endswith("::add") for z in dst) and idx in {z.label() for z in dst}, "R06.5",
+                  ["par_extend", "slot-is-ptr.add(index)"], "the result is written to %s" % sorted(z.label() for z in dst), w2.line())
+        val = x.prov.op_src(w2.args[1])
+        ctx.check(any(z.kind == "variant" and z.a == "std::option::Option::Some" for z in val) and idx in {z.label() for z in val}, "R06.5",
+                  ["par_extend", "value-is-Some(task(index))"], "the value written derives from %s" % sorted(z.label() for z in val), w2.line())
+        for c in [c for c in x.live_calls() if c.callee.endswith("::add")]:
+            ctx.check({z.label() for z in x.prov.op_src(c.args[1])} == {idx}, "R06.5", ["par_extend", "offset-is-own-index"],
+                      "pointer offset is %s" % sorted(z.label() for z in x.prov.op_src(c.args[1])), c.line())
+
+
+def _r06_5_resize_with(ctx, prog, crate, pe, bc, rw):
+    """The empty slots appended by the safe `vec.resize_with(old_len + aux_threads + 1, || None)`: every slot the tasks write
+    to exists and holds None before the broadcast; base = vec.as_mut_ptr().add(old_len) taken afterwards."""
+    from lib.symexpr import Sym, show
+    from lib.patheval import PathEval
+    S = Sym(pe, site_args=True)
+    aux = ("arg", 3, ())
+    ln = S.op(rw.args[1])
+    ok = ln[0] == "lin" and ln[2] == 1 and dict(ln[1]).get(aux) == 1 and len(ln[1]) == 2 and any(a[0] in ("call", "site") and a[1] == "std::vec::Vec::len" for a, c_ in ln[1])
+    ctx.check(ok, "R06.5", ["par_extend", "set_len-old+aux+1"], "resize_with's new length is %s, expected old_len + aux_threads + 1" % show(ln), rw.line())
+    ctx.check(S.op(bc.args[1]) == aux, "R06.5", ["par_extend", "broadcast-same-count"], "broadcast gets %s" % show(S.op(bc.args[1])), bc.line())
+    # the filler yields None
+    fill = None
+    a = rw.args[2] if len(rw.args) > 2 else None
+    if a is not None and a.get("k") in ("copy", "move") and not a["p"]["proj"]:
+        for d in pe.prov.defs.get(a["p"]["l"], []):
+            if d[0] == "S" and d[3]["rv"]["k"] == "agg" and d[3]["rv"].get("ak") == "closure":
+                fill = prog.bodies.get((pe.crate, norm(d[3]["rv"]["def"]), -1))
+    sums = PathEval(fill).run() if fill is not None else None
+    okf = bool(sums) and all(s_.ret[0] == "adt" and s_.ret[1] == "std::option::Option" and s_.ret[2] == "None" for s_ in sums)
+    ctx.check(okf, "R06.5", ["par_extend", "prefill-None"], "resize_with does not fill the new slots with None", rw.line())
+    ctx.ok("R06.5", "par_extend|prefill-covers-all-exposed-slots (resize_with initialises every slot up to the new length)")
+    # the vector is not touched between the resize and the broadcast other than to take the base pointer; the old length
+    # used for the base pointer is read before the resize
+    lens = [c for c in pe.live_calls() if c.callee == "std::vec::Vec::len"]
+    ctx.check(all(pe.dominates(c.bb, rw.bb) for c in lens) and pe.dominates(rw.bb, bc.bb), "R06.5", ["par_extend", "prefill-then-set_len-then-broadcast"],
+              "slots are not appended before the broadcast (or the old length is read after the resize)", bc.line())
+    amp = [c for c in pe.live_calls() if c.callee == "std::vec::Vec::as_mut_ptr"]
+    ctx.check(len(amp) == 1 and pe.dominates(rw.bb, amp[0].bb), "R06.5", ["par_extend", "base-pointer-after-resize"],
+              "the base pointer is taken before the vector may have been reallocated by the resize", (amp[0] if amp else rw).line())
+    _r06_5_task_closure(ctx, prog, pe)
+
+
 def r06_5(ctx, prog, crate):
     pe = prog.body(POOL + "ThreadPool::par_extend", crate)
     if not ctx.anchor("R06.5", "ThreadPool::par_extend", 1 if pe else 0, 1):
@@ -511,6 +563,9 @@ def r06_5(ctx, prog, crate):
     ctx.saw(pe)
     bc = [c for c in pe.live_calls() if c.callee == POOL + "ThreadPool::broadcast"]
     sl = [c for c in pe.live_calls() if c.callee == "std::vec::Vec::set_len"]
+    rw = [c for c in pe.live_calls() if c.callee == "std::vec::Vec::resize_with"]
+    if len(bc) == 1 and not sl and len(rw) == 1:
+        return _r06_5_resize_with(ctx, prog, crate, pe, bc[0], rw[0])
     fe = [c for c in pe.live_calls() if c.callee.endswith("::for_each")]
     rs = [c for c in pe.live_calls() if c.callee in ("std::vec::Vec::reserve_exact", "std::vec::Vec::reserve")]
     if len(bc) == 1 and len(sl) == 1 and len(fe) == 0 and len(rs) == 1 and len(pe.loops) == 1:
@@ -591,18 +646,22 @@ def r06_6(ctx, prog, crate):
     lock = [c for c in bt.live_calls() if c.callee == "std::sync::Mutex::lock"]
     ctx.check(len(lock) == 1 and bt.dominates(lock[0].bb, sp.bb), "R06.6", ["spawn", "under-lock"], "spawn is not dominated by the lock", sp.line())
     srcs = bt.prov.op_src(sp.args[0])
-    ok = any(s.kind == "call" and s.a == "std::num::NonZero::new" for s in srcs) and any(s.kind == "call" and s.a == "core::num::saturating_sub" for s in srcs) \
-        and any(s.kind == "call" and s.a == "std::vec::Vec::len" for s in srcs) and "param:" + bt.param_name(2) in {s.label() for s in srcs}
+    # NonZero::new(aux.saturating_sub(len)) or aux.checked_sub(len).and_then(NonZero::new): the positive difference, if any
+    nonzero = any(s.kind in ("call", "fnitem") and s.a == "std::num::NonZero::new" for s in srcs)
+    diff = any(s.kind == "call" and s.a in ("core::num::saturating_sub", "core::num::checked_sub") for s in srcs)
+    ok = nonzero and diff and any(s.kind == "call" and s.a == "std::vec::Vec::len" for s in srcs) and "param:" + bt.param_name(2) in {s.label() for s in srcs} and \
+        not any(s.kind == "binop" for s in srcs)
     ctx.check(ok, "R06.6", ["spawn", "count-is-missing-threads"], "spawn count derives from %s" % sorted(s.label() for s in srcs), sp.line())
-    ss = [c for c in bt.live_calls() if c.callee == "core::num::saturating_sub"]
+    ss = [c for c in bt.live_calls() if c.callee in ("core::num::saturating_sub", "core::num::checked_sub")]
     if ss:
         a0 = {s.label() for s in bt.prov.op_src(ss[0].args[0])}
         a1 = {s.a for s in bt.prov.op_src(ss[0].args[1]) if s.kind == "call"}
         ctx.check(a0 == {"param:" + bt.param_name(2)} and "std::vec::Vec::len" in a1, "R06.6", ["spawn", "aux-minus-existing"],
                   "missing = %s.saturating_sub(%s)" % (sorted(a0), sorted(a1)), ss[0].line())
     # control dependent on Some
-    nz = [c for c in bt.live_calls() if c.callee == "std::num::NonZero::new"]
-    if nz:
+    nz = [c for c in bt.live_calls() if c.callee == "std::num::NonZero::new"] or \
+        [c for c in bt.live_calls() if c.callee == "std::option::Option::and_then" and any(a.get("k") == "const" and norm(a["c"].get("fn") or "") == "std::num::NonZero::new" for a in c.args)]
+    if ctx.check(bool(nz), "R06.6", ["spawn", "missing-count-is-an-option"], "the spawn count is not NonZero::new of the difference", sp.line()):
         ok = False
         sw_ = tables.switch_on_call_result(bt, nz[0])
         if sw_ is not None:
